@@ -860,6 +860,7 @@ fn main() {
         "create" => run_create(&spec, &stub),
         "exec" => run_exec(&spec, &stub),
         "pipeline" => run_pipeline(&spec, &stub),
+        "handle" => run_handle(&spec, &stub),
         "threads" => run_threads(&spec, &stub),
         _ => panic!("unknown kind"),
     }
@@ -1184,8 +1185,282 @@ fn run_exec(spec: &Spec, stub: &str) {
     LOGGING.store(false, Ordering::SeqCst);
 }
 
-fn run_pipeline(_spec: &Spec, _stub: &str) {
-    unimplemented!("pipeline scenarios are added with C13/C14")
+fn stage_exec(spec_line: &str, stub: &str, detached: bool) -> Exec {
+    // stage <argv0 hex | STUB>,<hex>,...
+    let argv: Vec<OsString> = spec_line
+        .split(',')
+        .map(|a| if a == "STUB" { OsString::from(stub) } else { OsString::from_vec(hexdec(a)) })
+        .collect();
+    let mut e = Exec::cmd(&argv[0]);
+    for a in &argv[1..] {
+        e = e.arg(a);
+    }
+    if detached {
+        e = e.detached();
+    }
+    e
+}
+
+fn show_popens(v: &[Popen]) {
+    for (i, p) in v.iter().enumerate() {
+        println!(
+            "stage {} stdin={} stdout={} stderr={} pid={}",
+            i,
+            p.stdin.as_ref().map(|f| f.as_raw_fd()).unwrap_or(-1),
+            p.stdout.as_ref().map(|f| f.as_raw_fd()).unwrap_or(-1),
+            p.stderr.as_ref().map(|f| f.as_raw_fd()).unwrap_or(-1),
+            p.pid().map(|x| x as i64).unwrap_or(-1)
+        );
+    }
+}
+
+/// What to do with a reader / writer / vector of Popens once the terminator returned.
+fn use_reader(mut r: impl Read, after: &str) {
+    if after == "read_all" {
+        let mut v = vec![];
+        let res = r.read_to_end(&mut v);
+        println!("read_all {} {}", if res.is_ok() { "ok" } else { "err" }, hexenc(&v));
+    } else if let Some(n) = after.strip_prefix("read:") {
+        let n: usize = n.parse().unwrap();
+        let mut buf = vec![0u8; n];
+        let mut got = 0;
+        while got < n {
+            match r.read(&mut buf[got..]) {
+                Ok(0) | Err(_) => break,
+                Ok(k) => got += k,
+            }
+        }
+        println!("read_some {}", got);
+    }
+    mark("drop");
+    let t = Instant::now();
+    drop(r);
+    println!("dropped_ms {}", t.elapsed().as_millis());
+}
+
+fn use_writer(mut w: impl Write, after: &str) {
+    if let Some(h) = after.strip_prefix("write:") {
+        let r = w.write_all(&hexdec(h));
+        println!("write {}", if r.is_ok() { "ok" } else { "err" });
+    }
+    mark("drop");
+    let t = Instant::now();
+    drop(w);
+    println!("dropped_ms {}", t.elapsed().as_millis());
+}
+
+/// Pipeline scenarios (C12, C13, C14): stages, composition shape, pipeline-level stream settings, a
+/// terminator, and what is done with what it returns.
+fn run_pipeline(spec: &Spec, stub: &str) {
+    let wd = std::env::var("STUB_DIR").unwrap();
+    let det = spec.get("stage_detached") == Some("1");
+    let mut stages: Vec<Exec> = spec.all("stage").iter().map(|l| stage_exec(l, stub, det)).collect();
+    let shape = spec.get("shape").unwrap_or("left").to_string();
+    let mut pl: Pipeline = if shape == "iter" {
+        Pipeline::from_exec_iter(stages)
+    } else if let Some(k) = shape.strip_prefix("cat:") {
+        // (first k commands) | (the rest), both built left-nested
+        let k: usize = k.parse().unwrap();
+        let rest: Vec<Exec> = stages.split_off(k);
+        let build = |v: Vec<Exec>| -> Pipeline {
+            let mut it = v.into_iter();
+            let a = it.next().unwrap();
+            let b = it.next().unwrap();
+            let mut p = a | b;
+            for e in it {
+                p = p | e;
+            }
+            p
+        };
+        build(stages) | build(rest)
+    } else {
+        let mut it = stages.into_iter();
+        let a = it.next().unwrap();
+        let b = it.next().unwrap();
+        let mut p = a | b;
+        for e in it {
+            p = p | e;
+        }
+        p
+    };
+    match spec.get("pstdin").unwrap_or("none") {
+        "none" => {}
+        "pipe" => pl = pl.stdin(Redirection::Pipe),
+        "null" => pl = pl.stdin(subprocess::NullFile),
+        "file" => {
+            let p = format!("{}/pin.txt", wd);
+            pl = pl.stdin(File::open(&p).unwrap());
+        }
+        d if d.starts_with("data:") => pl = pl.stdin(hexdec(&d[5..])),
+        _ => panic!("bad pstdin"),
+    }
+    match spec.get("pstdout").unwrap_or("none") {
+        "none" => {}
+        "pipe" => pl = pl.stdout(Redirection::Pipe),
+        "null" => pl = pl.stdout(subprocess::NullFile),
+        "file" => pl = pl.stdout(File::create(format!("{}/pout.txt", wd)).unwrap()),
+        _ => panic!("bad pstdout"),
+    }
+    if spec.get("stderr_to") == Some("file") {
+        pl = pl.stderr_to(std::fs::OpenOptions::new().create(true).append(true).open(format!("{}/perr.txt", wd)).unwrap());
+    }
+    let term = spec.get("term").unwrap_or("popen").to_string();
+    let after = spec.get("after").unwrap_or("drop").to_string();
+    std::panic::set_hook(Box::new(|_| {}));
+    LOGGING.store(true, Ordering::SeqCst);
+    mark("term");
+    let t0 = Instant::now();
+    let r = std::panic::catch_unwind(std::panic::AssertUnwindSafe(|| match term.as_str() {
+        "popen" => match pl.popen() {
+            Ok(mut v) => {
+                println!("term ok");
+                show_popens(&v);
+                show_table("fds_running");
+                if after == "io" {
+                    // feed the first command, drain the last one, then wait for all in order
+                    if let Some(mut w) = v[0].stdin.take() {
+                        if let Some(h) = spec.get("input") {
+                            w.write_all(&hexdec(h)).ok();
+                        }
+                    }
+                    let n = v.len();
+                    if let Some(mut rd) = v[n - 1].stdout.take() {
+                        let mut out = vec![];
+                        rd.read_to_end(&mut out).ok();
+                        println!("out {}", hexenc(&out));
+                    }
+                    for (i, p) in v.iter_mut().enumerate() {
+                        println!("wait {} {}", i, p.wait().map(show_status).unwrap_or("err".into()));
+                    }
+                }
+                mark("drop");
+                let t = Instant::now();
+                drop(v);
+                println!("dropped_ms {}", t.elapsed().as_millis());
+            }
+            Err(e) => println!("term err {}", show_err(&e)),
+        },
+        "join" => match pl.join() {
+            Ok(st) => println!("term ok status={}", show_status(st)),
+            Err(e) => println!("term err {}", show_err(&e)),
+        },
+        "capture" => match pl.capture() {
+            Ok(c) => println!("term ok out={} err={} status={}", hexenc(&c.stdout), hexenc(&c.stderr), show_status(c.exit_status)),
+            Err(e) => println!("term err {}", show_err(&e)),
+        },
+        "communicate" => match pl.communicate() {
+            Ok(mut c) => match c.read() {
+                Ok((o, e)) => println!(
+                    "term ok out={} err={}",
+                    o.map(|v| hexenc(&v)).unwrap_or("none".into()),
+                    e.map(|v| hexenc(&v)).unwrap_or("none".into())
+                ),
+                Err(e) => println!("term ok readerr={:?}", e.kind()),
+            },
+            Err(e) => println!("term err {}", show_err(&e)),
+        },
+        "stream_stdout" => match pl.stream_stdout() {
+            Ok(r) => {
+                println!("term ok");
+                use_reader(r, &after);
+            }
+            Err(e) => println!("term err {}", show_err(&e)),
+        },
+        "stream_stdin" => match pl.stream_stdin() {
+            Ok(w) => {
+                println!("term ok");
+                use_writer(w, &after);
+            }
+            Err(e) => println!("term err {}", show_err(&e)),
+        },
+        _ => panic!("unknown terminator"),
+    }));
+    if r.is_err() {
+        println!("term panic");
+    }
+    println!("term_ms {}", t0.elapsed().as_millis());
+    LOGGING.store(false, Ordering::SeqCst);
+}
+
+/// Single-command handle scenarios (C12): Exec terminators and what becomes of the handle.
+fn run_handle(spec: &Spec, stub: &str) {
+    let det = spec.get("stage_detached") == Some("1");
+    let mut e = stage_exec(spec.get("stage").unwrap(), stub, det);
+    match spec.get("pstdin").unwrap_or("none") {
+        "none" => {}
+        "pipe" => e = e.stdin(Redirection::Pipe),
+        d if d.starts_with("data:") => e = e.stdin(hexdec(&d[5..])),
+        _ => panic!("bad pstdin"),
+    }
+    match spec.get("pstdout").unwrap_or("none") {
+        "none" => {}
+        "pipe" => e = e.stdout(Redirection::Pipe),
+        "null" => e = e.stdout(subprocess::NullFile),
+        _ => panic!("bad pstdout"),
+    }
+    match spec.get("pstderr").unwrap_or("none") {
+        "none" => {}
+        "pipe" => e = e.stderr(Redirection::Pipe),
+        "null" => e = e.stderr(subprocess::NullFile),
+        _ => panic!("bad pstderr"),
+    }
+    let term = spec.get("term").unwrap_or("popen").to_string();
+    let after = spec.get("after").unwrap_or("drop").to_string();
+    std::panic::set_hook(Box::new(|_| {}));
+    LOGGING.store(true, Ordering::SeqCst);
+    mark("term");
+    let t0 = Instant::now();
+    let r = std::panic::catch_unwind(std::panic::AssertUnwindSafe(|| match term.as_str() {
+        "popen" => match e.popen() {
+            Ok(p) => {
+                println!("term ok");
+                show_popens(std::slice::from_ref(&p));
+                if let Some(ms) = after.strip_prefix("sleep_drop:") {
+                    std::thread::sleep(Duration::from_millis(ms.parse().unwrap()));
+                }
+                mark("drop");
+                let t = Instant::now();
+                drop(p);
+                println!("dropped_ms {}", t.elapsed().as_millis());
+            }
+            Err(e) => println!("term err {}", show_err(&e)),
+        },
+        "join" => match e.join() {
+            Ok(st) => println!("term ok status={}", show_status(st)),
+            Err(e) => println!("term err {}", show_err(&e)),
+        },
+        "capture" => match e.capture() {
+            Ok(c) => println!("term ok out={} err={} status={}", hexenc(&c.stdout), hexenc(&c.stderr), show_status(c.exit_status)),
+            Err(e) => println!("term err {}", show_err(&e)),
+        },
+        "stream_stdout" => match e.stream_stdout() {
+            Ok(r) => {
+                println!("term ok");
+                use_reader(r, &after);
+            }
+            Err(e) => println!("term err {}", show_err(&e)),
+        },
+        "stream_stderr" => match e.stream_stderr() {
+            Ok(r) => {
+                println!("term ok");
+                use_reader(r, &after);
+            }
+            Err(e) => println!("term err {}", show_err(&e)),
+        },
+        "stream_stdin" => match e.stream_stdin() {
+            Ok(w) => {
+                println!("term ok");
+                use_writer(w, &after);
+            }
+            Err(e) => println!("term err {}", show_err(&e)),
+        },
+        _ => panic!("unknown terminator"),
+    }));
+    if r.is_err() {
+        println!("term panic");
+    }
+    println!("term_ms {}", t0.elapsed().as_millis());
+    LOGGING.store(false, Ordering::SeqCst);
 }
 
 fn run_threads(_spec: &Spec, _stub: &str) {
